@@ -225,6 +225,9 @@ class World:
                      and self.sock in self.d._association.transport.selector.get_map(), horizon)
             self.feed(peer_cer())
         self.run(lambda: self.d.is_open(), horizon)
+        if self.role != "client" and self.d.is_open():
+            # the handshake is over for the harness only when the CEA has left the node completely
+            self.run(lambda: any(m["cmd"] == 257 and not m["flags"] & 0x80 for m in self._safe_sent()), 2.0)
         return bool(self.d.is_open())
 
     def second_generation(self, how):
